@@ -17,7 +17,7 @@ type query struct {
 	End    int64           `json:"end"`
 	Addrs  []common.Address `json:"addrs"`
 	Topics [][]common.Hash `json:"topics"`
-	Via    string          `json:"via"`  // "filter" | "api" | "api_json"
+	Via    string          `json:"via"`  // "filter" | "api" | "api_json" | "api_installed"
 	Tmpl   string          `json:"tmpl"` // template name (forced) or "random"
 }
 
